@@ -423,4 +423,80 @@ theorem splitQuery_ne_nil (input : Bytes) (qs : List Bytes) (h : Spec.Uri.splitQ
   simp at this
   omega
 
+/-! ### below the minimum: segments are omitted, never altered -/
+
+theorem writeS_cases (seg d : Bytes) (st : Cnt) (hd : pctDecode seg = some d) :
+    writeS seg st = st ∨ writeS seg st = { st with segs := st.segs ++ [d] } := by
+  unfold writeS
+  rw [hd]
+  simp only
+  split
+  · left; rfl
+  · split
+    · left; rfl
+    · split
+      · left; rfl
+      · right; rfl
+
+/-- whatever the buffer size, the path writer returns S's resolution of a sublist of the decoded segments -/
+theorem fold_buf_path_sub (raws ds : List Bytes) (st : Cnt) (h : decodeAll raws = some ds) :
+    ∃ ds' : List Bytes, ds'.Sublist ds ∧
+      raws.foldl (fun s seg => pathStepBuf seg s) st = ⟨st.buflen, ds'.foldl resolveStep st.segs⟩ := by
+  induction raws generalizing ds st with
+  | nil => simp [decodeAll] at h; subst h; exact ⟨[], List.Sublist.refl _, rfl⟩
+  | cons r rs ih =>
+    simp only [decodeAll] at h
+    cases hd : pctDecode r with
+    | none => simp [hd] at h
+    | some d =>
+      cases ht : decodeAll rs with
+      | none => simp [hd, ht] at h
+      | some t =>
+        simp [hd, ht] at h
+        subst h
+        simp only [List.foldl_cons]
+        have hstep : pathStepBuf r st = st ∨ pathStepBuf r st = ⟨st.buflen, resolveStep st.segs d⟩ := by
+          unfold pathStepBuf resolveStep
+          rw [dotKind_decode r d hd]
+          by_cases e1 : d = dot1
+          · left; simp [e1]
+          · by_cases e2 : d = dot2
+            · have hne : dot2 ≠ dot1 := by decide
+              subst e2
+              right; simp [hne, backupSegment]
+            · have h01 : ¬ ((0 : Nat) = 1) := by omega
+              have h02 : ¬ ((0 : Nat) = 2) := by omega
+              simp only [e1, e2, if_false, h01, h02]
+              exact writeS_cases r d st hd
+        rcases hstep with e | e
+        · rw [e]
+          obtain ⟨ds', hsub, hf⟩ := ih t st ht
+          exact ⟨ds', List.Sublist.cons _ hsub, hf⟩
+        · rw [e]
+          obtain ⟨ds', hsub, hf⟩ := ih t ⟨st.buflen, resolveStep st.segs d⟩ ht
+          exact ⟨d :: ds', List.Sublist.cons_cons _ hsub, by simpa using hf⟩
+
+theorem fold_buf_query_sub (raws ds : List Bytes) (st : Cnt) (h : decodeAll raws = some ds) :
+    ∃ ds' : List Bytes, ds'.Sublist ds ∧ raws.foldl (fun s seg => writeS seg s) st = ⟨st.buflen, st.segs ++ ds'⟩ := by
+  induction raws generalizing ds st with
+  | nil => simp [decodeAll] at h; subst h; exact ⟨[], List.Sublist.refl _, by simp⟩
+  | cons r rs ih =>
+    simp only [decodeAll] at h
+    cases hd : pctDecode r with
+    | none => simp [hd] at h
+    | some d =>
+      cases ht : decodeAll rs with
+      | none => simp [hd, ht] at h
+      | some t =>
+        simp [hd, ht] at h
+        subst h
+        simp only [List.foldl_cons]
+        rcases writeS_cases r d st hd with e | e
+        · rw [e]
+          obtain ⟨ds', hsub, hf⟩ := ih t st ht
+          exact ⟨ds', List.Sublist.cons _ hsub, hf⟩
+        · rw [e]
+          obtain ⟨ds', hsub, hf⟩ := ih t { st with segs := st.segs ++ [d] } ht
+          exact ⟨d :: ds', List.Sublist.cons_cons _ hsub, by simpa using hf⟩
+
 end Coap.UriL
